@@ -307,11 +307,12 @@ VUnknownOp(ev) ==
   IN IF ev.out.t # "elem" THEN PBad("unknown-group element API raised", BytesToHex(EdEnc(c, e)))
      ELSE IF HexToBytes(ev.out.enc) # EdEnc(c, e) THEN PBad("unknown-group element " \o ev.fn \o " is not the Edwards group law", BytesToHex(EdEnc(c, e)))
      ELSE PGood
-VUnknownDec(ev) ==
+VUnknownDec(ev) ==        \* which curve points the lenient decoder accepts is not a listed property: only what it returns is checked
   LET c == GroupTable[ev.grp]
       r == EdDecodePoint(c, HexToBytes(ev.b))
-  IN IF r.ok # (ev.out.t = "elem") THEN PBad("bytes_to_unknown_group_element accepts/rejects", IF r.ok THEN "accept" ELSE "reject")
-     ELSE IF r.ok /\ HexToBytes(ev.out.enc) # HexToBytes(ev.b) THEN PBad("bytes_to_unknown_group_element does not re-encode", "")
+  IN IF ev.out.t # "elem" THEN PGood
+     ELSE IF ~r.ok THEN PBad("bytes_to_unknown_group_element returned an element for a string that encodes no curve point", "reject")
+     ELSE IF HexToBytes(ev.out.enc) # HexToBytes(ev.b) THEN PBad("bytes_to_unknown_group_element does not re-encode", "")
      ELSE PGood
 VMaskTable(ev) ==
   LET bad == {m \in 1..Len(ev.masks) : ev.masks[m] # GenerateMask(NLit(m))[1] \/ ev.nbytes[m] # GenerateMask(NLit(m))[2]}
